@@ -379,9 +379,10 @@ class SgzConverter(SgzReader):
                         x_count = 16
                     buffer = bytearray(self.chunk_bytes*16*16)
                     for n in range(i_count):
-                        self.file.seek(self.data_start_bytes + x*self.chunk_bytes*16 + 4*(n+i*16)*inline_bytes)
+                        # (a range read, checked for its length like every other read of the source file)
+                        offset = self.data_start_bytes + x*self.chunk_bytes*16 + 4*(n+i*16)*inline_bytes
                         idx = slice(n*self.chunk_bytes*16, n*self.chunk_bytes*16 + x_count*self.chunk_bytes)
-                        buffer[idx] = self.file.read(self.chunk_bytes*x_count)
+                        buffer[idx] = self.file.read_range(self.file, offset, self.chunk_bytes*x_count)
                     for z in range(padded_shape[2] // new_blockshape[2]):
                         new_block = bytearray(DISK_BLOCK_BYTES)
                         for u in range(64*64):
